@@ -76,6 +76,27 @@ func (m *module) checkTypes() {
 			if t.Count < 2 || t.Count > 4 {
 				m.fail("T2", "%s: column count %d is not 2, 3 or 4", in, t.Count)
 			}
+		case tkImage:
+			m.fire("T2")
+			if st := m.types[t.Elem]; st != nil && st.Kind != tkVoid && st.Kind != tkInt && st.Kind != tkFloat {
+				m.fail("T2", "%s: sampled type %s is neither void nor a numerical scalar", in, m.typeName(t.Elem))
+			}
+			switch {
+			case t.Dim > 6 && t.Dim != 4173: // TileImageDataEXT
+				m.fail("T2", "%s: Dim operand %d is not a known dimensionality", in, t.Dim)
+			case t.Depth > 2:
+				m.fail("T2", "%s: Depth operand %d must be 0, 1 or 2", in, t.Depth)
+			case t.Arrayed > 1:
+				m.fail("T2", "%s: Arrayed operand %d must be 0 or 1", in, t.Arrayed)
+			case t.MS > 1:
+				m.fail("T2", "%s: MS operand %d must be 0 or 1", in, t.MS)
+			case t.Sampled > 2:
+				m.fail("T2", "%s: Sampled operand %d must be 0, 1 or 2", in, t.Sampled)
+			case t.Sampled == 0 && m.caps[capShader]:
+				m.fail("T2", "%s: Sampled operand 0 (known only at run time) is not allowed in the Vulkan environment", in)
+			case t.Format > 41:
+				m.fail("T2", "%s: image format %d is not a known format", in, t.Format)
+			}
 		case tkArray:
 			m.fire("T4")
 			ld := m.defs[t.LenID]
@@ -164,6 +185,9 @@ func (m *module) checkTypes() {
 			continue
 		}
 		m.fire("T6")
+		if fc := in.Ops[0].Lit; fc&^0xF != 0 || fc&0x3 == 0x3 {
+			m.fail("T6", "%s: function control mask 0x%x has unknown bits or both Inline and DontInline", in, fc)
+		}
 		ft := m.types[in.Ops[1].ID]
 		if ft == nil || ft.Kind != tkFunction {
 			continue // I6 reports
